@@ -73,14 +73,15 @@ func classify(c Case) (bool, []string) {
 }
 
 func check(c Case) *vk.Failure {
-	words := c.words()
+	orig := c.words()
+	words := vk.Words(orig).Clone() // what the code under test sees
 	n := len(words)
 	nbits := 64 * n
 
 	// oracle: running count, bit by bit, shifts only
 	pre := make([]int32, nbits+1)
 	for i := 0; i < nbits; i++ {
-		pre[i+1] = pre[i] + int32(words[i/64]>>(uint(i)%64)&1)
+		pre[i+1] = pre[i] + int32(orig[i/64]>>(uint(i)%64)&1)
 	}
 	total := pre[nbits]
 
@@ -142,7 +143,7 @@ func check(c Case) *vk.Failure {
 
 	// positions to query
 	probe := func(i int32) *vk.Failure {
-		wantC, wantB := pre[i], int32(words[i/64]>>(uint(i)%64)&1)
+		wantC, wantB := pre[i], int32(orig[i/64]>>(uint(i)%64)&1)
 		var c1, b1, c2, b2, c3, b3 int32
 		if f := vk.Try("Rank64/Rank128", func() {
 			c1, b1 = bitmap.Rank64(words, idx, i)
